@@ -103,8 +103,9 @@ static volatile long g_ub = 0;
 #include <sys/resource.h>
 static sigjmp_buf g_jb;
 static volatile sig_atomic_t g_in_request = 0;
-static volatile long g_cur_a = 0, g_cur_b = 0;
-static volatile int g_cur_valid = 0;
+extern volatile long g_cur_a, g_cur_b;      // defined once per program (CUR_DEFS): the sweeps run in other translation units
+extern volatile int g_cur_valid;
+#define CUR_DEFS volatile long g_cur_a = 0, g_cur_b = 0; volatile int g_cur_valid = 0;
 static void on_trap(int sig) { if (g_in_request) siglongjmp(g_jb, sig); _exit(100 + sig); }
 static void install_traps(long cpu_seconds) {
     const int sigs[] = { SIGFPE, SIGSEGV, SIGBUS, SIGILL, SIGABRT, SIGXCPU };
@@ -125,6 +126,7 @@ static void bump_cpu_limit(long cpu_seconds) {     // after a watchdog hit: give
 
 # ------------------------------------------------------------------------------------------------
 LAYOUT = COMMON + r'''
+CUR_DEFS
 extern "C" void __ubsan_on_report(void) { g_ub = g_ub + 1; }
 struct Row { const char* u; const char* r; void (*f)(const char*, const char*); };
 
@@ -356,6 +358,7 @@ struct Entry {
 '''
 
 OPS_MAIN = r'''
+CUR_DEFS
 extern "C" void __ubsan_on_report(void) { g_ub = g_ub + 1; }
 @EXTERNS@
 static const Entry* const tables[] = { @TABLES@ };
@@ -475,6 +478,7 @@ int main() {
 
 # ------------------------------------------------------------------------------------------------
 RT = COMMON + r'''
+CUR_DEFS
 extern "C" void __ubsan_on_report(void) { g_ub = g_ub + 1; }
 using U = @UNIT@;
 static const auto qmaker = au::QuantityMaker<U>{};
